@@ -290,6 +290,40 @@ def _safe_types(m, w):
         return None
 
 
+def check_recovery_terminates(ctx):
+    """Termination of sly's driver in panic mode, one necessary condition on the tables: in a defaulted state the driver reduces without looking at the next
+    token - also when that token is the `error` marker of a recovery in progress.  If the default reduction is by an EMPTY production nothing is popped, the goto
+    state has no action on `error` and is popped again, and the driver is back in the defaulted state: it never returns.  Which states are defaulted is computed
+    by sly's own code (interpreted) on the reconstructed action tables; matters for every dialect whose error callback can return (the recovery then runs)."""
+    from ..lalr import tables_for
+    n = 0
+    for d in DIALECTS:
+        g = load_dialect(ctx.src, d)
+        t = tables_for(ctx.src, d)
+        ef = g.error_func
+        # the recovery runs only if the error callback can come back: some path of it ends without a raise (sly's own default callback returns too)
+        from ..cfg import Flow
+        returns = True
+        if ef is not None and ef[0] != 'sly/yacc.py':
+            res = Flow(lambda s_, st_: st_, lambda a, b: a).run(ef[2], 0)
+            returns = bool(res.returns) or res.end is not None         # a return statement, or the end of the body is reachable
+        if not returns:
+            ctx.note(f'{d}: the error callback always raises - panic-mode recovery never runs, defaulted states are not examined')
+            continue
+        for st, act in sorted(t.defaulted.items()):
+            n += 1
+            pr = t.P[-act] if isinstance(act, int) and act < 0 else None
+            ctx.ob('C02.recovery-terminates', f'{d}:state {st}', pr is not None and len(pr.rhs) > 0,
+                   f'{d}: state {st} ({" | ".join(t.items_str(st))}) is a defaulted state whose default action is '
+                   + (f'the reduction by the empty production `{pr}`' if pr is not None else f'{act!r} (not a reduction)')
+                   + ': a syntax error that unwinds the stack to this state makes the driver reduce, fall back and reduce again for ever - parse_sql does not return',
+                   file='sly/yacc.py', line=None, witness='select sum(a) over (partition by b 1) from t')
+        extra = sorted(set(t.defaulted) - set(getattr(t, 'defaulted_formula', t.defaulted)))
+        ctx.note(f'{d}: {len(t.defaulted)} defaulted states' + (f', {len(extra)} of them not single-entry rows' if extra else ''))
+    ctx.setcount('defaulted_states', n)
+    ctx.floor('defaulted_states', 3)
+
+
 def run(ctx):
     ctx.explanation = (
         'May-raise analysis of the repository-owned parse path. Grammar actions: for each of the three dialects the semantic-'
@@ -316,6 +350,7 @@ def run(ctx):
     check_synth_tokens(ctx)
     check_regex_linear(ctx)
     check_token_actions(ctx)
+    check_recovery_terminates(ctx)
     if ctx.tier == 'thorough':
         check_reachability(ctx)
     ctx.floor('grammar_actions', 200 + 100 + 80)
